@@ -21,7 +21,7 @@ from onnx import numpy_helper
 from harness import buildlib as B
 from harness.common import Run, coq_list, coq_str
 
-CONE = ["Base.v", "IR.v", "Show.v", "Build.v", "Sem.v", "Plan.v", "Named.v", "Validate.v", "BuildFacts.v", "Inline.v", "InlineFacts.v", "CompilePres.v", "ScopeFacts.v", "InlineDefs.v", "InlineInj.v"]
+CONE = ["Base.v", "IR.v", "Show.v", "Build.v", "Sem.v", "Plan.v", "Named.v", "Validate.v", "BuildFacts.v", "Inline.v", "InlineFacts.v", "CompilePres.v", "ScopeFacts.v", "InlineDefs.v", "InlineInj.v", "InlineSeq.v"]
 PROPS = "props/C08.v"
 F32 = np.float32
 op = B.op17
